@@ -84,6 +84,22 @@ def gen_capacity(ctx, k, cap=None, fill=None):
     # zero-response messages to node 0 never wait for budget: pure packet-filling behaviour
     zr = gen.zero_response_names()
     n = rng.randrange(10, 80)
+    if isinstance(fill, tuple) and fill[0] == 'staging':
+        # the escaped image of ONE packet ends within a few bytes of the 312-byte staging buffer: eleven 22-byte messages (242 bytes fit the
+        # announced capacity 255) whose data contain fill[1] bytes that need escaping in total - swept by the caller over the boundary
+        left = fill[1]
+        for i in range(11):
+            m_i = min(16, left) if i < 10 else min(16, left)
+            take = min(16, max(0, left - 16 * (10 - i))) if False else min(16, left)
+            left -= take
+            d = [rng.choice([0xFE, 0xFD])] * take + [0x41 + (i % 20)] * (16 - take)
+            rng.shuffle(d)
+            a = {'mnum': 8 * i, 'size': 128, 'data': bytes(d)}
+            st, data = S.expected('bidib_send_bm_mirror_multiple', (0, 0, 0), a)
+            sc.add(call('bidib_send_bm_mirror_multiple', *S.tokens('bidib_send_bm_mirror_multiple', (0, 0, 0), a)))
+            calls.append(('bidib_send_bm_mirror_multiple', (0, 0, 0), data, None, ''))
+        sc.add('flush', 'quiesce', 'mark done', 'stop')
+        return sc.text(), calls, eff
     for i in range(n):
         if fill == 'fe':
             # vendor-less: sys_clock / node_changed_ack are short; use string... zero-response long: fw? none. Use bm_mirror_multiple with FE data
@@ -147,8 +163,13 @@ def gen_directed(ctx, k):
     calls = []
     uid = [0]
 
-    def one(tname):
+    def one(tname, same_as=None):
         ad = rng.choice(ADDRS)
+        if same_as is not None:
+            # the SAME function in both threads, other arguments: a function that builds its message in storage shared between calls shows here
+            name, ad, a, data = gen.random_call(rng, ad, names=[same_as], hot=0.5, long_bias=0.3)
+            calls.append((name, ad, data, None, tname))
+            return call(name, *S.tokens(name, ad, a))
         if rng.random() < 0.5:
             uid[0] += 1
             name, a = 'bidib_send_sys_clock', {'t0': uid[0] % 60, 't1': 0x80 + (uid[0] // 60) % 24, 't2': 0x40 + (uid[0] // 1440) % 7, 't3': 0xC0 + rng.randrange(32)}
@@ -161,6 +182,8 @@ def gen_directed(ctx, k):
         j = 1 + (i * 3 + k) % kmax
         a_lines = [one('t0')] if rng.random() < 0.8 else ['flush']
         b_lines = []
+        if a_lines[0] != 'flush' and rng.random() < 0.5:
+            b_lines.append(one('t1', same_as=calls[-1][0]))
         for _ in range(rng.randrange(1, 4)):
             b_lines.append(one('t1') if rng.random() < 0.75 else 'flush')
         sweep.add_two_thread_case(sc, i, a_lines, b_lines, j, fn, after=(('flush',) if rng.random() < 0.6 else ()))
@@ -274,7 +297,7 @@ def evaluate(ctx, r, calls, cap, kind, meta):
 def run(ctx):
     ctx.rule = ('seeded sequences of valid low-level calls (all send functions, address depth 0-3, bytes biased to FE/FD/00/FF, '
                 'max-length payloads, last byte solved so that the packet CRC is FE/FD), random flush placement; normal-mode sessions '
-                'with every announced capacity; concurrent senders with auto-flush under asan and tsan; directed preemption (a sender or flush paused at each of its scheduling points while another thread sends and flushes). non-trivial = distinct scenario '
+                'with every announced capacity, packets whose escaped image ends within a few bytes of the 312-byte staging buffer (swept); concurrent senders with auto-flush under asan and tsan; directed preemption (a sender or flush paused at each of its scheduling points while another thread sends and flushes). non-trivial = distinct scenario '
                 'with >=1 escaped byte or >=1 multi-message packet')
     ctx.assumptions = ['reference codec in vlib/model.py (CRC computed bitwise)', 'spec table vlib/spec_lowlevel.py for the reference encoding',
                        'simulated bus answers every request so that budget-deferred messages are eventually released']
@@ -287,6 +310,10 @@ def run(ctx):
     for k in range(ncap):
         text, calls, cap = gen_capacity(ctx, k, cap=k % 256, fill='fe' if (k % 256 in (255, 254, 200) or k % 7 == 0) else None)
         jobs.append(('asan', 'capacity', text, calls, cap))
+    for rep in range(ctx.n(1, 20)):
+        for total in range(40, 100):
+            text, calls, cap = gen_capacity(ctx, 50000 + rep * 100 + total, cap=255, fill=('staging', total))
+            jobs.append(('asan', 'capacity', text, calls, cap))
     nconc = ctx.n(40, 1500)
     for k in range(nconc):
         text, calls, cap = gen_concurrent(ctx, k)
